@@ -465,7 +465,7 @@ static void runNativeCfg(Ctx& c, Rng& rng, const char* kind, unsigned n, const c
 {
 	unsigned runs = c.thorough ? 12 : 3;
 	for (unsigned run = 0; run < runs; ++run)
-		runNative<Key, Value, HashBucket, tMaxFast, tLogStart>(c, rng, kind, n, keyName, (unsigned)rng.below(6), run);
+		runNative<Key, Value, HashBucket, tMaxFast, tLogStart>(c, rng, kind, n, keyName, (unsigned)rng.below(8), run);
 }
 #endif
 
@@ -749,8 +749,8 @@ int main(int argc, char** argv)
 		typedef momo::stdish::unordered_multimap_open<uint32_t, uint32_t> W4;
 		unsigned runs = c.thorough ? 10 : 3;
 		for (unsigned run = 0; run < runs; ++run) {
-			runWrapper<W1, true>(c, rng, false, (unsigned)rng.below(6), run);
-			runWrapper<W2, true>(c, rng, true, (unsigned)rng.below(6), run);
+			runWrapper<W1, true>(c, rng, false, (unsigned)rng.below(8), run);
+			runWrapper<W2, true>(c, rng, true, (unsigned)rng.below(8), run);
 			runWrapper<W3, false>(c, rng, false, 3, run);
 			runWrapper<W4, false>(c, rng, true, 3, run);
 		}
